@@ -44,7 +44,12 @@ ReOk(re, i, ik, j, jk) ==
       [] re = "d" -> ik = "s" /\ jk = "s" /\ i = j
 
 Log(a) == hist' = Append(hist, a) /\ arr0' = arr0
-Rec(a, i, ik, j, jk, v, re) == [a |-> a, i |-> i, ik |-> ik, j |-> j, jk |-> jk, v |-> v, re |-> re]
+Rec(a, i, ik, j, jk, v, re) == [a |-> a, i |-> i, ik |-> ik, j |-> j, jk |-> jk, v |-> v, re |-> re, cnd |-> -1]
+\* writes may sit inside an oblivious branch (_if(c) ... _endif on a context holding the array): cnd = -1 no branch, 1 branch taken,
+\* 0 branch NOT taken -- then nothing is written and a secret index outside the bounds does not raise (the code is inert);
+\* a public index outside the bounds is wrong as program text and raises wherever it stands
+Conds == {-1, 0, 1}
+Writes(cnd) == cnd # 0
 Ok(r) == [out |-> "ok", ret |-> r]
 Raise == [out |-> "raise", ret |-> <<>>]
 
@@ -54,11 +59,11 @@ Get1(i, ik, re) ==
     /\ last' = IF Valid(i, ik, Len(arr)) THEN Ok(<<arr[Pos(i, Len(arr))]>>) ELSE Raise
     /\ Log(Rec("get", i, ik, 0, "p", 0, re))
 
-Set1(i, ik, v, re) ==
+Set1(i, ik, v, re, cnd) ==
     /\ dim = 1 /\ dim' = dim /\ brr' = brr /\ re # "d" /\ ReOk(re, i, ik, 0, "p")
-    /\ arr' = IF Valid(i, ik, Len(arr)) THEN [arr EXCEPT ![Pos(i, Len(arr))] = v] ELSE arr
-    /\ last' = IF Valid(i, ik, Len(arr)) THEN Ok(<<>>) ELSE Raise
-    /\ Log(Rec("set", i, ik, 0, "p", v, re))
+    /\ arr' = IF Valid(i, ik, Len(arr)) /\ Writes(cnd) THEN [arr EXCEPT ![Pos(i, Len(arr))] = v] ELSE arr
+    /\ last' = IF Valid(i, ik, Len(arr)) \/ (cnd = 0 /\ ik = "s") THEN Ok(<<>>) ELSE Raise
+    /\ Log([Rec("set", i, ik, 0, "p", v, re) EXCEPT !.cnd = cnd])
 
 \* the second array B (in one-dimensional histories)
 GetB(i, ik, re) ==
@@ -85,11 +90,13 @@ GetRow(i, ik, re) ==
     /\ last' = IF Valid(i, ik, Len(arr)) THEN Ok(arr[Pos(i, Len(arr))]) ELSE Raise
     /\ Log(Rec("getrow", i, ik, 0, "p", 0, re))
 
-Set2(i, ik, j, jk, v, re) ==
+\* (under a branch that is not taken only the PUBLIC components of the index can make the access raise)
+Valid2Dead(i, ik, j, jk) == (ik = "s" \/ Valid(i, ik, Len(arr))) /\ (jk = "s" \/ Valid(j, jk, Len(arr[1])))
+Set2(i, ik, j, jk, v, re, cnd) ==
     /\ dim = 2 /\ dim' = dim /\ brr' = brr /\ ReOk(re, i, ik, j, jk)
-    /\ arr' = IF Valid2(i, ik, j, jk) THEN [arr EXCEPT ![Pos(i, Len(arr))][Pos(j, Len(arr[1]))] = v] ELSE arr
-    /\ last' = IF Valid2(i, ik, j, jk) THEN Ok(<<>>) ELSE Raise
-    /\ Log(Rec("set2", i, ik, j, jk, v, re))
+    /\ arr' = IF Valid2(i, ik, j, jk) /\ Writes(cnd) THEN [arr EXCEPT ![Pos(i, Len(arr))][Pos(j, Len(arr[1]))] = v] ELSE arr
+    /\ last' = IF Valid2(i, ik, j, jk) \/ (cnd = 0 /\ Valid2Dead(i, ik, j, jk)) THEN Ok(<<>>) ELSE Raise
+    /\ Log([Rec("set2", i, ik, j, jk, v, re) EXCEPT !.cnd = cnd])
 
 \* m[dst] = m[src]  (dst public and valid; src of kind sk): the whole row is replaced by a copy of the source row
 CopyRow(dst, src, sk) ==
@@ -99,15 +106,19 @@ CopyRow(dst, src, sk) ==
     /\ Log(Rec("copyrow", dst, "p", src, sk, 0, "n"))
 
 Step == \/ \E i \in -1..3, k \in Kinds, re \in Reuses : Get1(i, k, re) \/ GetRow(i, k, re) \/ GetB(i, k, re)
-        \/ \E i \in -1..3, k \in Kinds, v \in Vals, re \in Reuses : Set1(i, k, v, re)
+        \/ \E i \in -1..3, k \in Kinds, v \in Vals, re \in Reuses : Set1(i, k, v, re, -1)
+        \/ \E i \in -1..3, k \in Kinds, re \in Reuses, c \in {0, 1} : Set1(i, k, 7, re, c)
         \/ \E i \in -1..3, k \in Kinds, re \in Reuses : SetB(i, k, 7, re)
         \/ \E i \in -1..3, j \in -1..2, ik \in Kinds, jk \in Kinds, re \in Reuses : Get2(i, ik, j, jk, re)
-        \/ \E i \in -1..3, j \in -1..2, ik \in Kinds, jk \in Kinds, re \in Reuses : Set2(i, ik, j, jk, 7, re)
+        \/ \E i \in -1..3, j \in -1..2, ik \in Kinds, jk \in Kinds, re \in Reuses, c \in Conds : Set2(i, ik, j, jk, 7, re, c)
         \* (a row read at a PUBLIC position is the row object itself -- Python aliasing, not modelled; a row read at a
         \*  secret position is a fresh selection of values)
         \/ \E d \in 0..1, s \in -1..2 : CopyRow(d, s, "s")
 
-Next == Len(hist) < MaxLen /\ Step
+\* an access that raises INSIDE an open branch ends the history: the block API has no way to abandon an open block, a program
+\* cannot catch the error and go on with the same context
+Alive == hist = <<>> \/ ~(last.out = "raise" /\ hist[Len(hist)].cnd >= 0)
+Next == Len(hist) < MaxLen /\ Alive /\ Step
 Spec == Init /\ [][Next]_vars
 
 \* ---- sanity of the reference itself: an element write changes at most one cell, a read none
